@@ -341,6 +341,49 @@ def generic_markov_blanket_log_probability(markov_blanket, sample_genotypes, sam
     return log_joint
 
 
+
+
+def markov_blanket_log_allele_probability(target_index, allele_index, sample_genotypes, sample_ploidy, sample_parents, sample_children, gamete_tau, gamete_lambda, gamete_error, log_frequencies, dosage, dosage_p, dosage_q, gamete_p, gamete_q, constraint_p, constraint_q, dosage_log_frequencies):
+    """Joint probability of pedigree items that fall within the Markov blanket of the specified target sample."""
+    n_samples, max_children = sample_children.shape
+    assert 0 <= target_index < n_samples
+    p = sample_parents[target_index, 0]
+    q = sample_parents[target_index, 1]
+    if p >= 0:
+        error_p = gamete_error[target_index, 0]
+        ploidy_p = sample_ploidy[p]
+    else:
+        error_p = 1.0
+        ploidy_p = 0
+    if q >= 0:
+        error_q = gamete_error[target_index, 1]
+        ploidy_q = sample_ploidy[q]
+    else:
+        error_q = 1.0
+        ploidy_q = 0
+    log_joint = trio_allele_log_pmf(allele_index=allele_index, progeny=sample_genotypes[target_index], parent_p=sample_genotypes[p], parent_q=sample_genotypes[q], ploidy_p=ploidy_p, ploidy_q=ploidy_q, tau_p=gamete_tau[target_index, 0], tau_q=gamete_tau[target_index, 1], lambda_p=gamete_lambda[target_index, 0], lambda_q=gamete_lambda[target_index, 1], error_p=error_p, error_q=error_q, log_frequencies=log_frequencies, dosage=dosage, dosage_p=dosage_p, dosage_q=dosage_q, gamete_p=gamete_p, gamete_q=gamete_q, constraint_p=constraint_p, constraint_q=constraint_q, dosage_log_frequencies=dosage_log_frequencies)
+    for idx in range(max_children):
+        i = sample_children[target_index, idx]
+        if i < 0:
+            break
+        p = sample_parents[i, 0]
+        q = sample_parents[i, 1]
+        if p >= 0:
+            error_p = gamete_error[i, 0]
+            ploidy_p = sample_ploidy[p]
+        else:
+            error_p = 1.0
+            ploidy_p = 0
+        if q >= 0:
+            error_q = gamete_error[i, 1]
+            ploidy_q = sample_ploidy[q]
+        else:
+            error_q = 1.0
+            ploidy_q = 0
+        log_joint += trio_log_pmf(sample_genotypes[i], sample_genotypes[p], sample_genotypes[q], ploidy_p=ploidy_p, ploidy_q=ploidy_q, tau_p=gamete_tau[i, 0], tau_q=gamete_tau[i, 1], lambda_p=gamete_lambda[i, 0], lambda_q=gamete_lambda[i, 1], error_p=error_p, error_q=error_q, log_frequencies=log_frequencies, dosage=dosage, dosage_p=dosage_p, dosage_q=dosage_q, gamete_p=gamete_p, gamete_q=gamete_q, constraint_p=constraint_p, constraint_q=constraint_q, dosage_log_frequencies=dosage_log_frequencies)
+    return log_joint
+
+
 def trio_allele_log_pmf(allele_index, progeny, parent_p, parent_q, ploidy_p, ploidy_q, tau_p, tau_q, lambda_p, lambda_q, error_p, error_q, log_frequencies, dosage, dosage_p, dosage_q, gamete_p, gamete_q, constraint_p, constraint_q, dosage_log_frequencies):
     """Log probability of allele within a trio of genotypes."""
     error_p = 1.0 if tau_p == 0 else error_p
@@ -349,6 +392,8 @@ def trio_allele_log_pmf(allele_index, progeny, parent_p, parent_q, ploidy_p, plo
     lerror_q = np.log(error_q)
     lcorrect_p = np.log(1 - error_p) if error_p < 1.0 else -np.inf
     lcorrect_q = np.log(1 - error_q) if error_q < 1.0 else -np.inf
+    lweight_p = np.log(2 * tau_p / (tau_p + tau_q)) if tau_p > 0 else -np.inf
+    lweight_q = np.log(2 * tau_q / (tau_p + tau_q)) if tau_q > 0 else -np.inf
     assert allele_index < len(progeny)
     for i in range(len(progeny)):
         if progeny[i] == progeny[allele_index]:
@@ -397,15 +442,15 @@ def trio_allele_log_pmf(allele_index, progeny, parent_p, parent_q, ploidy_p, plo
             lprob_gamete_q = gamete_log_pmf(gamete_dose=gamete_q, gamete_ploidy=tau_q, parent_dose=dosage_q, parent_ploidy=ploidy_q, gamete_lambda=lambda_q)
             lprob_const_q = gamete_const_log_pmf(allele_index=allele_index, gamete_dose=gamete_q, gamete_ploidy=tau_q, parent_dose=dosage_q, parent_ploidy=ploidy_q)
             lprob_allele_q = gamete_allele_log_pmf(gamete_count=gamete_q[allele_index], gamete_ploidy=tau_q, parent_count=dosage_q[allele_index], parent_ploidy=ploidy_q, gamete_lambda=lambda_q)
-            lprob_p = lprob_gamete_q + lprob_const_p + lprob_allele_p
-            lprob_q = lprob_gamete_p + lprob_const_q + lprob_allele_q
+            lprob_p = lprob_gamete_q + lprob_const_p + lprob_allele_p + lweight_p
+            lprob_q = lprob_gamete_p + lprob_const_q + lprob_allele_q + lweight_q
             lprob_pq = add_log_prob(lprob_p, lprob_q) + lcorrect_p + lcorrect_q
             lprob = add_log_prob(lprob, lprob_pq)
             lprob_gamete_q = log_unknown_dosage_prior(gamete_q, dosage_log_frequencies)
             lprob_const_q = log_unknown_const_prior(gamete_q, allele_index, dosage_log_frequencies)
             lprob_allele_q = dosage_log_frequencies[allele_index]
-            lprob_p = lprob_gamete_q + lprob_const_p + lprob_allele_p
-            lprob_q = lprob_gamete_p + lprob_const_q + lprob_allele_q
+            lprob_p = lprob_gamete_q + lprob_const_p + lprob_allele_p + lweight_p
+            lprob_q = lprob_gamete_p + lprob_const_q + lprob_allele_q + lweight_q
             lprob_pq = add_log_prob(lprob_p, lprob_q) + lcorrect_p + lerror_q
             lprob = add_log_prob(lprob, lprob_pq)
             try:
@@ -425,8 +470,8 @@ def trio_allele_log_pmf(allele_index, progeny, parent_p, parent_q, ploidy_p, plo
             lprob_gamete_q = log_unknown_dosage_prior(gamete_q, dosage_log_frequencies)
             lprob_const_q = log_unknown_const_prior(gamete_q, allele_index, dosage_log_frequencies)
             lprob_allele_q = dosage_log_frequencies[allele_index]
-            lprob_p = lprob_gamete_q + lprob_const_p + lprob_allele_p
-            lprob_q = lprob_gamete_p + lprob_const_q + lprob_allele_q
+            lprob_p = lprob_gamete_q + lprob_const_p + lprob_allele_p + lweight_p
+            lprob_q = lprob_gamete_p + lprob_const_q + lprob_allele_q + lweight_q
             lprob_pq = add_log_prob(lprob_p, lprob_q) + lcorrect_p + lerror_q
             lprob = add_log_prob(lprob, lprob_pq)
             try:
@@ -448,8 +493,8 @@ def trio_allele_log_pmf(allele_index, progeny, parent_p, parent_q, ploidy_p, plo
             lprob_gamete_p = log_unknown_dosage_prior(gamete_p, dosage_log_frequencies)
             lprob_const_p = log_unknown_const_prior(gamete_p, allele_index, dosage_log_frequencies)
             lprob_allele_p = dosage_log_frequencies[allele_index]
-            lprob_p = lprob_gamete_q + lprob_const_p + lprob_allele_p
-            lprob_q = lprob_gamete_p + lprob_const_q + lprob_allele_q
+            lprob_p = lprob_gamete_q + lprob_const_p + lprob_allele_p + lweight_p
+            lprob_q = lprob_gamete_p + lprob_const_q + lprob_allele_q + lweight_q
             lprob_pq = add_log_prob(lprob_p, lprob_q) + lerror_p + lcorrect_q
             lprob = add_log_prob(lprob, lprob_pq)
             try:
@@ -465,44 +510,3 @@ def trio_allele_log_pmf(allele_index, progeny, parent_p, parent_q, ploidy_p, plo
     lprob = add_log_prob(lprob, lprob_pq)
     assert not np.isnan(lprob)
     return lprob
-
-
-def markov_blanket_log_allele_probability(target_index, allele_index, sample_genotypes, sample_ploidy, sample_parents, sample_children, gamete_tau, gamete_lambda, gamete_error, log_frequencies, dosage, dosage_p, dosage_q, gamete_p, gamete_q, constraint_p, constraint_q, dosage_log_frequencies):
-    """Joint probability of pedigree items that fall within the Markov blanket of the specified target sample."""
-    n_samples, max_children = sample_children.shape
-    assert 0 <= target_index < n_samples
-    p = sample_parents[target_index, 0]
-    q = sample_parents[target_index, 1]
-    if p >= 0:
-        error_p = gamete_error[target_index, 0]
-        ploidy_p = sample_ploidy[p]
-    else:
-        error_p = 1.0
-        ploidy_p = 0
-    if q >= 0:
-        error_q = gamete_error[target_index, 1]
-        ploidy_q = sample_ploidy[q]
-    else:
-        error_q = 1.0
-        ploidy_q = 0
-    log_joint = trio_allele_log_pmf(allele_index=allele_index, progeny=sample_genotypes[target_index], parent_p=sample_genotypes[p], parent_q=sample_genotypes[q], ploidy_p=ploidy_p, ploidy_q=ploidy_q, tau_p=gamete_tau[target_index, 0], tau_q=gamete_tau[target_index, 1], lambda_p=gamete_lambda[target_index, 0], lambda_q=gamete_lambda[target_index, 1], error_p=error_p, error_q=error_q, log_frequencies=log_frequencies, dosage=dosage, dosage_p=dosage_p, dosage_q=dosage_q, gamete_p=gamete_p, gamete_q=gamete_q, constraint_p=constraint_p, constraint_q=constraint_q, dosage_log_frequencies=dosage_log_frequencies)
-    for idx in range(max_children):
-        i = sample_children[target_index, idx]
-        if i < 0:
-            break
-        p = sample_parents[i, 0]
-        q = sample_parents[i, 1]
-        if p >= 0:
-            error_p = gamete_error[i, 0]
-            ploidy_p = sample_ploidy[p]
-        else:
-            error_p = 1.0
-            ploidy_p = 0
-        if q >= 0:
-            error_q = gamete_error[i, 1]
-            ploidy_q = sample_ploidy[q]
-        else:
-            error_q = 1.0
-            ploidy_q = 0
-        log_joint += trio_log_pmf(sample_genotypes[i], sample_genotypes[p], sample_genotypes[q], ploidy_p=ploidy_p, ploidy_q=ploidy_q, tau_p=gamete_tau[i, 0], tau_q=gamete_tau[i, 1], lambda_p=gamete_lambda[i, 0], lambda_q=gamete_lambda[i, 1], error_p=error_p, error_q=error_q, log_frequencies=log_frequencies, dosage=dosage, dosage_p=dosage_p, dosage_q=dosage_q, gamete_p=gamete_p, gamete_q=gamete_q, constraint_p=constraint_p, constraint_q=constraint_q, dosage_log_frequencies=dosage_log_frequencies)
-    return log_joint
